@@ -804,6 +804,32 @@ func run(ctx *bex.Ctx) {
 	}
 	ctx.SpaceDone(fmt.Sprintf("%d grids (start %v x size %v x every count 0..64) x lists of <= 1 record, x in {every edge, edge+-size/2, edge+-1ulp, start-2size, end+2size, 0, -0, -3, +-1e9, +-2^62, +-2^63, +-2^64, +-2^70, +-1e30, +-MaxFloat64} x weight {1,0.5,-2}", len(every), starts1, sizes1))
 
+	// (1b) many bin sizes: whether an element on an edge start+k*size lands in bin k+1 depends on the
+	// arithmetic of the index computation for THAT size (seeded change S20C: multiplying by a precomputed
+	// 1/size is off by one for size 49, 98, 103, 107, 161, … and fine for every power of two)
+	ctx.Space("1d-single-many-sizes")
+	c.idx = 0
+	maxSize := 128
+	if !ctx.Quick() {
+		maxSize = 512
+	}
+	var manySizes []float64
+	for n := 1; n <= maxSize; n++ {
+		manySizes = append(manySizes, float64(n), float64(n)/2, float64(n)/8)
+	}
+	many := axisGrids([]float64{0, -1.5, 7}, manySizes, []int{0, 3, 20, 64})
+	for gi, g := range many {
+		a := c.ref(g)
+		pool := records1(fullPool(a), []float64{1})
+		eachList(len(pool), 1, 1, func(ix []int) bool {
+			if c.next() {
+				c.doWhole(&kase{Space: "1d-single-many-sizes", Dim: 1, AX: g, Recs: pick(pool, ix)}, 1, gi, ix)
+			}
+			return !c.stop
+		})
+	}
+	ctx.SpaceDone(fmt.Sprintf("%d grids (start {0,-1.5,7} x size n, n/2, n/8 for every n <= %d x count {0,3,20,64}) x one record, x in {every edge, edge+-size/2, far values} x weight 1", len(many), maxSize))
+
 	// (2) 1-d, lists of exactly 2 records over the full pool, small counts
 	ctx.Space("1d-pairs")
 	c.idx = 0
